@@ -66,7 +66,11 @@ func (ms msgServer) UpdateParams(goCtx context.Context, msg *types.MsgUpdatePara
 	}
 	// set updated new params
 	ms.SetParams(ctx, p)
-	_ = GetAggregatorContext(ctx, ms.Keeper)
-	cs.AddCache(cache.ItemP(p))
+	// skip the cache update if this is not deliverTx (tx simulation / gas estimation execute the
+	// message on the check state): the cache is process-global and is committed at EndBlock
+	if !ctx.IsCheckTx() {
+		_ = GetAggregatorContext(ctx, ms.Keeper)
+		cs.AddCache(cache.ItemP(p))
+	}
 	return &types.MsgUpdateParamsResponse{}, nil
 }
